@@ -726,6 +726,56 @@ func (u *c10Universe) randHistory(r *verifh.Rand, n int) []c10Call {
 	return calls
 }
 
+func c10Corpus(t *testing.T, out *verifh.Out) {
+	host := &net.IPNet{IP: c10V4(10, 1, 2, 3), Mask: net.CIDRMask(24, 32)}
+	canon := &net.IPNet{IP: c10V4(10, 1, 2, 0), Mask: net.CIDRMask(24, 32)}
+	hostM := &net.IPNet{IP: c10Mapped(c10V4(10, 1, 2, 77)), Mask: net.CIDRMask(120, 128)}
+	host6 := &net.IPNet{IP: net.ParseIP("2001:db8::1:2:3"), Mask: net.CIDRMask(64, 128)}
+	canon6 := &net.IPNet{IP: net.ParseIP("2001:db8::"), Mask: net.CIDRMask(64, 128)}
+	var probes []c10Probe
+	for p := 0; p < c10NPeers; p++ {
+		probes = append(probes, c10Probe{kind: 1, p: p})
+	}
+	ips := append(c10Edges(canon), c10V4(10, 1, 2, 9), c10V4(10, 1, 2, 3))
+	ips = append(ips, c10Edges(canon6)...)
+	ips = append(ips, net.ParseIP("2001:db8::1:2:3"))
+	for i, ip := range ips {
+		forms := []net.IP{ip}
+		if v4 := ip.To4(); v4 != nil {
+			forms = []net.IP{append(net.IP{}, v4...), c10Mapped(v4)}
+		}
+		for _, f := range forms {
+			fam, _ := c10Text(f)
+			tpt := 0
+			if fam == 6 {
+				tpt = 7
+			}
+			probes = append(probes, c10MkAddrProbe(out, t, 2+i%2, f, tpt))
+		}
+	}
+	blk := func(n *net.IPNet) c10Call { return c10Call{opk: 0, r: c10Rule{kind: 2, n: n}} }
+	unb := func(n *net.IPNet) c10Call { return c10Call{opk: 1, r: c10Rule{kind: 2, n: n}} }
+	re := c10Call{ev: 4}
+	crash := func(c c10Call) c10Call { c.ev = 2; return c }
+	for _, h := range [][]c10Call{
+		{blk(host), unb(canon)},
+		{blk(host), re, unb(canon)},
+		{blk(host), re, unb(canon), re},
+		{blk(host), unb(hostM)},
+		{blk(hostM), re, unb(host), re},
+		{blk(canon), unb(host)},
+		{crash(blk(host)), unb(canon), re},
+		{blk(host), crash(unb(canon))},
+		{blk(host), blk(canon), blk(hostM), unb(canon), re},
+		{blk(host6), unb(canon6)},
+		{blk(host6), re, unb(canon6), re},
+		{blk(canon6), re, unb(host6)},
+	} {
+		out.Cover("gater.cases.corpus-fixed-subnet-key")
+		c10RunCase(t, out, probes, h)
+	}
+}
+
 func TestVerifC10(t *testing.T) {
 	out, err := verifh.Open()
 	if err != nil {
@@ -740,6 +790,13 @@ func TestVerifC10(t *testing.T) {
 	if thorough {
 		nbase, nrand = 600, 8000
 	}
+	// (0) corpus: the history of the repaired defect (subnet rules used to be
+	// keyed by the non-canonical text of ipnet.String()): block 10.1.2.3/24,
+	// unblock 10.1.2.0/24 — plain, with a restart in between (the form
+	// ListBlockedSubnets reports after a restart), with process stops, and in
+	// the mapped / 16-byte-mask representations.  Must pass now.
+	c10Corpus(t, out)
+
 	// (1) systematic fault injection: a base history of normal calls, and for
 	// every position k and every fault kind the same history with the fault
 	// at call k (the remaining calls run on the reopened gater)
@@ -778,7 +835,7 @@ func TestVerifC10(t *testing.T) {
 		c10RunCase(t, out, u.probes, h)
 	}
 	// (3) subnets given with host bits set (IPNet{IP: peerIP, Mask: CIDRMask(24, 32)}): their
-	// String() is not the canonical CIDR text, which is what the rule maps are keyed by
+	// String() is not the canonical CIDR text; the same subnet must be the same rule
 	for i := 0; i < nrand/4; i++ {
 		u := c10MkUniverse(t, out, r, true)
 		h := u.randHistory(r, 4+r.Intn(10))
